@@ -411,10 +411,36 @@ func zeroMarker(a addr) string { return fmt.Sprintf("%d:%p|zero", a.root.f, a.ro
 // "cells that are not materialised are still zero", so it has to go as well: otherwise a later load
 // of the forgotten cell would read the constant 0 instead of an unknown value.
 func (d *disjunct) forget(mk string) {
+	if c := d.mem[mk]; c != nil && c.typ != nil {
+		d.dropMemo(c.typ)
+	} else if c != nil {
+		d.memo = nil
+	}
 	if c := d.mem[mk]; c != nil && !strings.HasSuffix(mk, "|zero") {
 		delete(d.mem, zeroMarker(c.a))
 	}
 	delete(d.mem, mk)
+}
+
+// dropMemo forgets the memoised results of calls that read memory of type t (type-based alias filter).
+func (d *disjunct) dropMemo(t types.Type) {
+	if len(d.memo) == 0 {
+		return
+	}
+	_, isStruct := t.Underlying().(*types.Struct)
+	var keep []memoEnt
+	for _, me := range d.memo {
+		hit := isStruct
+		for _, lt := range me.loads {
+			if types.Identical(lt, t) {
+				hit = true
+			}
+		}
+		if !hit {
+			keep = append(keep, me)
+		}
+	}
+	d.memo = keep
 }
 
 func (it *interp) zeroRep(t types.Type) rep {
@@ -457,6 +483,7 @@ func (it *interp) load(d *disjunct, f frameID, a addr, t types.Type, by ssa.Valu
 
 // store writes location a; invalidates overlapping and possibly aliasing cells.
 func (it *interp) store(d *disjunct, f frameID, a addr, t types.Type, val rep, v ssa.Value) {
+	d.dropMemo(t)
 	if isListAddr(a) {
 		// the ghost cell "last element of list Ln" (lists.go): a store to the last element rewrites it, a
 		// store to an element that may be the last one forgets it, a store to an earlier element leaves it
@@ -620,6 +647,7 @@ func (it *interp) storeStruct(d *disjunct, f frameID, a addr, st *types.Struct, 
 
 // havoc forgets every memory cell that a callee we cannot see might change.
 func (it *interp) havoc(d *disjunct, escaped map[string]bool) {
+	d.memo = nil
 	for mk, c := range d.mem {
 		if strings.HasSuffix(mk, "|zero") {
 			// zero markers of escaped or heap objects are dropped
